@@ -24,6 +24,8 @@ type LayoutCfg struct {
 	SameNames      bool // same method name + same :recv identifier under different receiver types (C17)
 	EmptyIface     bool // converter interfaces without any method (placeholder, all methods commented out)
 	LineDirective  bool // a //line directive in front of the package clause (files rendered by a preprocessor)
+	AliasIface     bool // converter interfaces declared in alias form: type X = interface{...}
+	MidLine        bool // a //line directive between declarations (another file name, or colliding line numbers)
 }
 
 // LayoutGen generates one layout scenario.
@@ -235,6 +237,12 @@ func GenLayout(r *rand.Rand, cfg LayoutCfg, id, pkgRel string) *Scenario {
 	}
 	var typeDecls strings.Builder
 	for i := 0; i < nIf; i++ {
+		if cfg.MidLine && g.chance(0.1) {
+			// positions reported after this line carry another file name and/or line numbers that collide with
+			// those of earlier lines; the declarations that follow still belong to THIS file
+			g.sb.WriteString([]string{"//line other.go:10", "//line setup.go:1", "//line setup.go:3", "//line sub/gen.tmpl:5"}[r.Intn(4)] + "\n\n")
+			g.vec = append(g.vec, "mid-line-directive")
+		}
 		if cfg.Surround {
 			for k := r.Intn(3); k > 0; k-- {
 				g.surround()
@@ -300,7 +308,19 @@ func GenLayout(r *rand.Rand, cfg LayoutCfg, id, pkgRel string) *Scenario {
 			fmt.Fprintf(&typeDecls, "type %s struct{ X int }\n\ntype %s struct{ X int }\n\n", a, b)
 			bm.Src.Type, bm.Dst.Type = "*"+a, "*"+b
 			base.Methods = append(base.Methods, bm)
-			fmt.Fprintf(&g.sb, "type %s interface {\n\t%s\n}\n\n", base.Name, bm.Sig())
+			if g.chance(0.5) {
+				// the embedded interface's method carries notation lines and prose: the notations govern the
+				// generated function and are absent from the carried-over interface, the prose stays
+				bm.Notations = append(bm.Notations, [][]Notation{{N("typecast")}, {N("skip", "Nope")}, {N("stringer"), N("skip", "/^Zz$/")}}[r.Intn(3)]...)
+				if cfg.Comments {
+					// (notation lines first: removing a notation line from the END of a method comment leaves a blank
+					// line that detaches the prose from the method - the defect family of KF-C11-doc-detached-by-
+					// go-generate, see DESIGN 10.3)
+					bm.DocLines = append(bm.DocLines, "// "+g.c("embedded method doc "+bm.Name))
+				}
+				g.vec = append(g.vec, "embeds-plain-notated")
+			}
+			fmt.Fprintf(&g.sb, "type %s interface {\n%s\t%s\n}\n\n", base.Name, RenderMethodDoc(bm), bm.Sig())
 			s.Ifaces = append(s.Ifaces, base)
 			it.Methods = append(it.Methods, bm)
 			embedded = base.Name
@@ -439,7 +459,13 @@ func GenLayout(r *rand.Rand, cfg LayoutCfg, id, pkgRel string) *Scenario {
 			if cfg.Comments && g.chance(0.15) {
 				close = "} // " + g.c("closing brace "+it.Name)
 			}
-			fmt.Fprintf(&g.sb, "type %s interface {\n%s%s%s\n", it.Name, body.String(), tail, close)
+			eq := ""
+			if cfg.AliasIface && g.chance(0.1) {
+				// an alias declaration of an interface type is an interface declared in the file like any other
+				eq = "= "
+				g.vec = append(g.vec, "alias-form")
+			}
+			fmt.Fprintf(&g.sb, "type %s %sinterface {\n%s%s%s\n", it.Name, eq, body.String(), tail, close)
 		}
 		g.vec = append(g.vec, fmt.Sprintf("m%d", nm))
 		s.Ifaces = append(s.Ifaces, it)
